@@ -74,6 +74,10 @@ def run(tier, argv):
         if len(args) == 2:
             variants["dict-pytree"] = lambda: seed(modular_vmap(lambda d: f(d["a"], d["b"]), in_axes=({"a": axes[0], "b": axes[1]},), **kw))(
                 key, {"a": args[0], "b": args[1]})
+        if c["f"] == "echo" and kw and c["ss"] == 0:
+            # the same site vectorised twice: an inner modular_vmap over the (outer-unbatched) vector, inside the outer map
+            variants["nested-inner(axis_size)"] = lambda: seed(modular_vmap(lambda x: modular_vmap(lambda m: echo(m), in_axes=0)(x), in_axes=None, axis_size=L))(key, *args)
+            variants["nested-inner(in_axes=0)"] = lambda: seed(modular_vmap(lambda _, x=args[0]: modular_vmap(lambda m: echo(m), in_axes=0)(x), in_axes=0))(key, jnp.zeros(L))
         if c["f"] in ("det", "dens") and not kw:
             variants["nested"] = None
         for vname, thunk in variants.items():
@@ -108,6 +112,31 @@ def run(tier, argv):
                     chk.violation(ck, "lanes share random bits (one draw broadcast)", {"case": c, "out": out.tolist()})
             except Exception as ex:
                 chk.violation(ck, f"raised {type(ex).__name__}: {str(ex).splitlines()[0][:160] if str(ex) else ''}", {"case": c})
+    # scans (forward and reverse) and cond inside the mapped function: lane-wise reference = the function applied to each slice
+    def scan_fn(reverse):
+        def f(x):
+            def body(c, t):
+                v = echo(c * 2 + t)
+                return v + 1, v
+            return jax.lax.scan(body, x, jnp.arange(3, dtype=jnp.int32), reverse=reverse)
+        return f
+    def cond_fn(x):
+        return jax.lax.cond(x % 2 == 0, lambda y: echo(y * 3), lambda y: echo(y + 100), x)
+    xs = jnp.asarray([1, 4, 7], dtype=jnp.int32)
+    for fname, f in (("scan-forward", scan_fn(False)), ("scan-reverse", scan_fn(True)), ("cond", cond_fn)):
+        ck = f"mvmap-control-flow|{fname}"
+        chk.case(ck)
+        chk.validated(1)
+        try:
+            ref = [jax.tree.map(np.asarray, seed(f)(key, xs[i])) for i in range(3)]
+            want = jax.tree.map(lambda *a: np.stack(a), *ref)
+            for vname, g in (("seed", seed(modular_vmap(f, in_axes=0))), ("jit", jax.jit(seed(modular_vmap(f, in_axes=0))))):
+                got = jax.tree.map(np.asarray, g(key, xs))
+                if not all(np.array_equal(a, b) for a, b in zip(jax.tree.leaves(got), jax.tree.leaves(want))):
+                    chk.violation(ck + "|" + vname, f"modular_vmap over a function with {fname} is not the stack of the per-slice results: "
+                                  f"{[a.tolist() for a in jax.tree.leaves(got)]} vs {[a.tolist() for a in jax.tree.leaves(want)]}", {})
+        except Exception as ex:
+            chk.violation(ck, f"raised {type(ex).__name__}: {str(ex).splitlines()[0][:160] if str(ex) else ''}", {})
     chk.sample({"case": cases[2][1]})
     # ---- the Vmap combinator / repeat through the GFI specification: lane i of the vectorised trace is a coherent
     #      trace of the callee on lane i's arguments; densities, weights and return values are the per-lane sums/stacks
